@@ -13,16 +13,17 @@ ATTR = "#[kani::unwind(%d)]\n#[kani::stub(std::fmt::format, vk_fmt_format_lastpi
 def persist_lib_rs(tree):
     p = os.path.join(tree, "src/snapshot/persist.rs")
     src = open(p).read()
-    body = src.split("#[cfg(test)]")[0]
-    src, a = re.subn(r"use std::fs::\{self, File\};", "use crate::simfs::fs::{self, File};", src)
-    src, b = re.subn(r"use std::path::\{Path, PathBuf\};", "use crate::simfs::path::{Path, PathBuf};", src)
-    src, c = re.subn(r"use std::io::\{Cursor, Write\};", "use crate::simfs::io::{Cursor, Write};", src)
+    # redirect the environment imports, whatever subset of names they list; everything else stays verbatim
+    src, a = re.subn(r"\buse std::fs(::[^;]*)?;", lambda m: "use crate::simfs::fs%s;" % (m.group(1) or ""), src)
+    src, b = re.subn(r"\buse std::path(::[^;]*)?;", lambda m: "use crate::simfs::path%s;" % (m.group(1) or ""), src)
+    src, c = re.subn(r"\buse std::io(::[^;]*)?;", lambda m: "use crate::simfs::io%s;" % (m.group(1) or ""), src)
     src, d = re.subn(r"\bstd::io::Result<", "crate::simfs::io::Result<", src)
-    if a != 1 or b != 1 or c != 1 or d < 1:
-        raise Inconclusive("persist.rs: the std::fs / std::path import lines are not in the recognised form")
-    if re.search(r"std::fs::|std::path::|OpenOptions|read_dir|tempfile", body.replace("use std::fs::{self, File};", "")
-                 .replace("use std::path::{Path, PathBuf};", "")):
-        raise Inconclusive("persist.rs uses file-system API outside the modelled set")
+    src, e = re.subn(r"\bstd::(fs|path)::", r"crate::simfs::\1::", src)
+    if a < 1 or b < 1:
+        raise Inconclusive("persist.rs: no `use std::fs` / `use std::path` import to redirect")
+    body = src.split("#[cfg(test)]")[0]
+    if re.search(r"OpenOptions|read_dir|tempfile|BufWriter|BufReader|std::io::", body):
+        raise Inconclusive("persist.rs uses file-system / io API outside the modelled set")
     open(p, "w").write(src)
     fmt = open(os.path.join(tree, "src/snapshot/format.rs")).read()
     stats = slices.extract_item(fmt, r"^pub struct ImportStats\b", "struct ImportStats")
